@@ -161,6 +161,25 @@ def main():
                     k = np.asarray(integ.kick_mask)
                     if not (np.array_equal(k, np.array(bits, dtype=float)) and np.array_equal(np.asarray(integ.drift_mask), 1 - k)):
                         failures.append(dict(method=cls.__name__, clause="explicit mask", bits=list(map(bool, bits))))
+    # one instance reused after a step that overflowed (a right-hand side that returns inf / nan at a rejected step size): the next step at
+    # a sane step size is the one a fresh instance takes (nothing non-finite of the earlier attempt may survive in the increment buffer)
+    def stiff_rhs(t, y, **kw):
+        return np.array([y[1], -1e200 * y[0] ** 3])
+    for name in req["methods"]:
+        cls = getattr(I, name)
+        if not issubclass(cls, I.ExplicitSymplecticIntegrator):
+            continue
+        cases += 1
+        try:
+            with np.errstate(all="ignore"):
+                used = cls((2,), dtype=dtype)
+                used(stiff_rhs, dtype(0.0), np.array([1.0, 0.0]), {}, dtype(1e200))
+                got = used(stiff_rhs, dtype(0.0), np.array([1e-80, 1.0]), {}, dtype(1e-3))[1][1]
+                want = cls((2,), dtype=dtype)(stiff_rhs, dtype(0.0), np.array([1e-80, 1.0]), {}, dtype(1e-3))[1][1]
+            if np.all(np.isfinite(want)) and not np.array_equal(np.asarray(got), np.asarray(want)):
+                failures.append(dict(method=name, clause="step after an overflowed step differs from a fresh instance's", got=[float(v) for v in got], fresh=[float(v) for v in want]))
+        except Exception as e_:
+            failures.append(dict(method=name, clause="step after an overflowed step raises", exc=repr(e_)[:100]))
     print(json.dumps(dict(cases=cases, failures=failures, bound="6 symplectic methods x random states x h=+-0.1 (4-d separable nonlinear Hamiltonian); masks: dims 2..6, all masks for dim <= 4")))
 
 
